@@ -462,6 +462,34 @@ pub fn compare(tee: &Tee) -> Result<(), String> {
     if a != b {
         return Err(format!("RcDom tree differs from the model tree: {} (RcDom vs model)", first_diff(&a, &b)));
     }
+    // element flags (not part of the dump): the MathML annotation-xml integration-point flag of
+    // every element, copies included (the trees have just been found equal in shape)
+    {
+        let nodes = tee.model.nodes.borrow();
+        let mut stack: Vec<(RcHandle, usize)> = vec![(tee.rc.document.clone(), DOC)];
+        while let Some((r, m)) = stack.pop() {
+            if let (NodeData::Element { mathml_annotation_xml_integration_point: rf, name, template_contents, .. }, crate::sinks::model::MKind::Element { mathml_ip, .. }) =
+                (&r.data, &nodes[m].kind)
+            {
+                if rf != mathml_ip {
+                    return Err(format!(
+                        "element <{}>: RcDom's mathml_annotation_xml_integration_point flag is {rf}, the model's {mathml_ip}",
+                        &*name.local
+                    ));
+                }
+                if let (Some(rt), Some(mt)) = (template_contents.borrow().as_ref(), nodes[m].tmpl) {
+                    stack.push((rt.clone(), mt));
+                }
+            }
+            let rk = r.children.borrow();
+            let mk = &nodes[m].children;
+            if rk.len() == mk.len() {
+                for (a, b) in rk.iter().zip(mk.iter()) {
+                    stack.push((a.clone(), *b));
+                }
+            }
+        }
+    }
     // parent links: every node's parent names exactly the node whose child list holds it, once
     let mut stack = vec![tee.rc.document.clone()];
     if rc_parent(&tee.rc.document).is_some() {
